@@ -9,7 +9,7 @@ LEVEL = "proof"
 THEOREMS = ["C01_emit_defs", "C01_emit_strands", "C01_emit_named_sup", "C01_emit_named_base", "C01_emit_names", "C01_flat_rc", "C01_wf_check_sound", "C01_compile_wf", "C01_compile_emit", "C01_strand_written", "C01_sup_written", "C01_seq_written", "C01_struct_written", "C01_kin_written"]
 TRUSTED = ["harness/pepper.py: printer of component ASTs to .comp text (random spelling), reader of .pil text, Python transcription of the denotations used by the failing-input search",
            "the regex layer of component_parser_regex.py is exercised, not modelled"]
-ASSUMPTIONS = ["user identifiers are not of the reserved form _Anon<digits>", "kinetic rate brackets use the `k > x` form only (a `<` inside a .comp line is taken for an <expression> by var_substitute)"]
+ASSUMPTIONS = ["kinetic rate brackets use the `k > x` form only (a `<` inside a .comp line is taken for an <expression> by var_substitute)"]
 
 def impl_case(case):
     import implrun
